@@ -64,17 +64,45 @@ def check(run):
     run.floor("C28.R2", 18)
     # R3 datify recursion
     dat = ix.func(DM, "datify")
-    txt = unparse(dat.node)
-    ok = "fieldtypes = {f.name: f.type for f in fields(cls)}" in txt and "cls(**{f: datify(fieldtypes[f], d[f]) for f in d})" in txt
+    ok = _datify_shape(dat)
     run.ob("C28.R3", "%s:recurses-with-field-type" % dat.fq, ok, run.site(dat), "" if ok else "datify no longer rebuilds every key of the mapping with the declared field type, recursively")
     dic = ix.func(DM, "dictify")
-    ok = "asdict(val)" in unparse(dic.node)
+    ok = any(isinstance(c, ast.Call) and dotted(c.func) == "asdict" and len(c.args) == 1 and dotted(c.args[0]) == dic.params()[0][0] for c in walk_local(dic.node))
     run.ob("C28.R3", "%s:nested-to-dict" % dic.fq, ok, run.site(dic), "" if ok else "dictify does not fall back to dataclasses.asdict (nested conversion)")
     for cname in ("MapDom", "IceMapDom"):
         f = ix.method(ix.cls(DM, cname), "_asdict")
         ok = any(isinstance(n, ast.Return) and unparse(n.value) in ("dictify(self)", "asdict(self)") for n in walk_local(f.node))
         run.ob("C28.R3", "%s:asdict-is-dictify" % f.fq, ok, run.site(f), "" if ok else "%s._asdict is not dictify(self)" % cname)
     run.floor("C28.R3", 4)
+
+
+def _datify_shape(dat):
+    """datify(cls, d) structurally: T = {v.name: v.type for v in fields(cls)} and cls(**{k: datify(T[k], d[k]) for k in d}),
+    whatever the locals are called."""
+    pc, pd = dat.params()[0][:2]
+    tables = set()
+    for n in walk_local(dat.node):
+        if isinstance(n, ast.Assign) and isinstance(n.targets[0], ast.Name) and isinstance(n.value, ast.DictComp) and len(n.value.generators) == 1:
+            g = n.value.generators[0]
+            v = g.target.id if isinstance(g.target, ast.Name) else None
+            if v and dotted(n.value.key) == v + ".name" and dotted(n.value.value) == v + ".type" and not g.ifs \
+                    and isinstance(g.iter, ast.Call) and dotted(g.iter.func) == "fields" and [dotted(a) for a in g.iter.args] == [pc]:
+                tables.add(n.targets[0].id)
+    for n in walk_local(dat.node):
+        if isinstance(n, ast.Call) and dotted(n.func) == pc and not n.args and len(n.keywords) == 1 and n.keywords[0].arg is None \
+                and isinstance(n.keywords[0].value, ast.DictComp) and len(n.keywords[0].value.generators) == 1:
+            dc = n.keywords[0].value
+            g = dc.generators[0]
+            k = g.target.id if isinstance(g.target, ast.Name) else None
+            if not k or g.ifs or dotted(g.iter) != pd or dotted(dc.key) != k:
+                continue
+            c = dc.value
+            if isinstance(c, ast.Call) and dotted(c.func) == "datify" and len(c.args) == 2 and not c.keywords:
+                a0, a1 = c.args
+                if isinstance(a0, ast.Subscript) and dotted(a0.value) in tables and dotted(a0.slice) == k \
+                        and isinstance(a1, ast.Subscript) and dotted(a1.value) == pd and dotted(a1.slice) == k:
+                    return True
+    return False
 
 
 MUTANTS = [
